@@ -164,6 +164,16 @@ class Sandbox:
             if not os.path.islink(link):
                 os.symlink(self.root, link)
             args, kw = (link,), {}
+        elif spelling == "tilde":
+            # the configured directory is a relative name that a shell would expand ("~", here a link to the tree below the working
+            # directory); HOME points at a decoy tree of the same shape
+            link = os.path.join(self.dir, "~")
+            if not os.path.islink(link):
+                os.symlink(self.root, link)
+            self.home0 = os.environ.get("HOME")
+            os.environ["HOME"] = os.path.join(self.decoy, "root")
+            os.chdir(self.dir)
+            args, kw = ("~",), {}
         elif spelling == "dotted":
             # the served directory is named relative to a sub-package ("c07outer.inner"); the enclosing package has a directory
             # of the same name
@@ -216,6 +226,12 @@ class Sandbox:
         finally:
             if spelling == "relative":
                 os.chdir(os.path.join(self.dir, "other"))  # the server's working directory changes after start-up
+            if spelling == "tilde":
+                os.chdir(os.path.join(self.dir, "other"))
+                if self.home0 is None:
+                    os.environ.pop("HOME", None)
+                else:
+                    os.environ["HOME"] = self.home0
             if spelling == "package":
                 sys.path.remove(self.parent)
                 sys.modules.pop("c07pkg", None)
@@ -309,7 +325,7 @@ def request(app, iface, path, root="", method="GET"):
     return ("status", res.status), res
 
 
-def judge(r, apps, spelling, iface, kind, path, root=""):
+def judge(r, apps, spelling, iface, kind, path, root="", note=None):
     app = apps[(iface, kind)]
     _AUDIT["log"] = []
     got, res = request(app, iface, path, root)
@@ -319,6 +335,9 @@ def judge(r, apps, spelling, iface, kind, path, root=""):
         r.count("distinct_nontrivial")
     w = {"spelling": spelling, "iface": iface, "kind": kind, "path": path, "root": root}
     where = f"{iface} {kind}({spelling}) on {path!r}" + (f" mounted at {root!r}" if root else "")
+    if note is not None:
+        w["layout"] = note
+        where += f" (same application object while {note} were created/deleted one after another)"
     if _AUDIT["log"]:
         rel = os.path.relpath(_AUDIT["log"][0], _AUDIT["sandbox"])
         r.violation("opened-outside-directory", w, f"{where} opened <sandbox>/{rel} which is outside the served directory <sandbox>/root")
@@ -464,7 +483,7 @@ def chain_family(r, tier):
 
 def shards(tier, seed):
     n = 8 if tier == "quick" else 32
-    return [("paths", spelling, k, n) for spelling in ("absolute", "relative", "package", "unicode", "handle404") for k in range(n)] + [("paths", "dotted", k, 2) for k in range(2)] + [("paths", "symlink", k, 2) for k in range(2)] + [("threads", "Files"), ("threads", "Pages"), ("chain",)]
+    return [("paths", spelling, k, n) for spelling in ("absolute", "relative", "package", "unicode", "handle404") for k in range(n)] + [("paths", "dotted", k, 2) for k in range(2)] + [("paths", "symlink", k, 2) for k in range(2)] + [("paths", "tilde", k, 2) for k in range(2)] + [("threads", "Files"), ("threads", "Pages"), ("chain",), ("layouts",)]
 
 
 def thread_family(r, kind, tier):
@@ -486,8 +505,65 @@ def thread_family(r, kind, tier):
         sb.close()
 
 
+LAYOUT_ENTRIES = ["fresh.txt", "fresh.html", "newdir/index.html", "dir/late.txt"]
+LAYOUT_PROBES = ["/fresh.txt", "/fresh", "/fresh.html", "/newdir", "/newdir/", "/newdir/index.html", "/newdir/index", "/dir/late.txt", "/dir/late", "/file.txt", "/dir/"]
+
+
+def layout_family(r, tier):
+    """'Every directory layout': the layout changes while the application objects live on. Every sequence of <= 3 (thorough: 4)
+    create/delete steps over four entries (a file, a page, a directory with an index page, a file in an existing directory);
+    before the first and after every step all probe paths are requested from the same four application objects and judged
+    against the layout as it is at that moment."""
+    sb = Sandbox()
+    ROOTNAME[0] = "root"
+    saved = dict(ROOT_TREE)
+    present = set()
+
+    def toggle(e):
+        p = os.path.join(sb.root, e)
+        if e in present:
+            os.remove(p)
+            present.discard(e)
+            del ROOT_TREE[e]
+            if e.startswith("newdir/"):
+                os.rmdir(os.path.dirname(p))
+                del ROOT_TREE["newdir"]
+        else:
+            if e.startswith("newdir/"):
+                os.makedirs(os.path.dirname(p))
+                ROOT_TREE["newdir"] = None
+            data = ("created " + e).encode()
+            with open(p, "wb") as f:
+                f.write(data)
+            ROOT_TREE[e] = data
+            present.add(e)
+
+    try:
+        apps = sb.apps("absolute")
+        depth = 3 if tier == "quick" else 4
+        for n in range(1, depth + 1):
+            for seq in itertools.product(range(len(LAYOUT_ENTRIES)), repeat=n):
+                for e in sorted(present):
+                    toggle(e)
+                for step in range(-1, n):
+                    if step >= 0:
+                        toggle(LAYOUT_ENTRIES[seq[step]])
+                    for path in LAYOUT_PROBES:
+                        for iface in ("wsgi", "asgi"):
+                            for kind in ("Files", "Pages"):
+                                judge(r, apps, "layout", iface, kind, path, note=[LAYOUT_ENTRIES[i] for i in seq[:step + 1]])
+        r.sample({"layout_entries": LAYOUT_ENTRIES, "probes": LAYOUT_PROBES, "sequences": f"all toggle sequences up to length {depth}"})
+    finally:
+        ROOT_TREE.clear()
+        ROOT_TREE.update(saved)
+        sb.close()
+
+
 def run_shard(desc, tier):
     r = R()
+    if desc[0] == "layouts":
+        layout_family(r, tier)
+        return r
     if desc[0] == "threads":
         thread_family(r, desc[1], tier)
         return r
@@ -496,7 +572,7 @@ def run_shard(desc, tier):
         return r
     _, spelling, k, n = desc
     sb = Sandbox()
-    ROOTNAME[0] = {"unicode": "raíz文", "symlink": "current"}.get(spelling, "root")
+    ROOTNAME[0] = {"unicode": "raíz文", "symlink": "current", "tilde": "~"}.get(spelling, "root")
     try:
         apps = sb.apps(spelling)
         paths = list(all_paths(DEPTH[tier]))[k::n]
@@ -525,11 +601,15 @@ def replay(w):
         hits = {k: v for k, v in r.viol.items() if v[1].get("path") == w["path"] and v[1].get("iface") == w["iface"]}
         return bool(hits), {"violations": sorted(hits), "texts": [v[2][:300].replace(_AUDIT.get("sandbox") or "<none>", "<sandbox>") for v in hits.values()]}
     r = R()
+    if w.get("spelling") == "layout":
+        layout_family(r, "quick")
+        hits = {k: v for k, v in r.viol.items() if v[1].get("path") == w["path"] and v[1].get("iface") == w["iface"]}
+        return bool(hits), {"violations": sorted(hits), "texts": [v[2][:400] for v in hits.values()]}
     if "threads" in w:
         thread_family(r, w["threads"], "quick")
         return bool(r.viol), {"violations": sorted(r.viol), "texts": [v[2][:300] for v in r.viol.values()]}
     sb = Sandbox()
-    ROOTNAME[0] = {"unicode": "raíz文", "symlink": "current"}.get(w["spelling"], "root")
+    ROOTNAME[0] = {"unicode": "raíz文", "symlink": "current", "tilde": "~"}.get(w["spelling"], "root")
     try:
         apps = sb.apps(w["spelling"])
         judge(r, apps, w["spelling"], w["iface"], w["kind"], w["path"], w.get("root", ""))
